@@ -14,6 +14,9 @@ package cachekv
 
 //@ ghost pkv.m (Array Iface (Array Str Bytes))
 
+// container/list and the KVPair items the sorted list holds are library state: no contract speaks about them
+//@ library_state Ha_Ptr Hc_Slice Hc_S_container_list_Element_v Hc_S_container_list_List_v Hc_S_github_com_tendermint_tendermint_libs_common_KVPair_v
+
 //@ guarded Store.cache, Store.unsortedCache, Store.sortedCache by Store.mtx
 
 //@ invariant cwf: store.cache != nil && store.unsortedCache != nil && (forall k string :: has(store.cache, k) ==> (store.cache[k] != nil && (store.cache[k].deleted ==> store.cache[k].value == nil && store.cache[k].dirty) && (store.cache[k].dirty && !store.cache[k].deleted ==> store.cache[k].value != nil) && (!store.cache[k].dirty ==> store.cache[k].value == pkv.m[store.parent][k]))) && (forall k string :: has(store.unsortedCache, k) ==> has(store.cache, k) && store.cache[k].dirty)
@@ -102,8 +105,7 @@ package cachekv
 //@ func (store *Store) dirtyItems(start, end []byte)
 //@   props C15
 //@   requires store.mtx == 1 && store.cache != nil && store.unsortedCache != nil
-// container/list and the KVPair items it holds are library state: whole heaps
-//@   modifies elems(store.unsortedCache), Ha_Ptr, Hc_Slice, Hc_S_container_list_Element_v, Hc_S_container_list_List_v, Hc_S_github_com_tendermint_tendermint_libs_common_KVPair_v
+//@   modifies elems(store.unsortedCache)
 //@   loop 1 invariant 0 <= iterpos(1) && iterpos(1) <= iterlen(1) && store.mtx == 1
 //@   loop 1 invariant forall k string :: has(store.unsortedCache, k) == (old(has(store.unsortedCache, k)) && !(iteridx(1, k) < iterpos(1) && !bytes_lt(bytes(k), start) && (end == nil || bytes_lt(bytes(k), end))))
 //@   loop 1 invariant forall r int :: r != ref(store.unsortedCache) ==> Hmp_Str_S_anon_fa4d6974_v[r] == old(Hmp_Str_S_anon_fa4d6974_v[r])   // the presence sets of all other map[string]struct{} values
@@ -111,3 +113,190 @@ package cachekv
 //@   loop 3 invariant store.mtx == 1
 //@   ensures [domain] forall k string :: has(store.unsortedCache, k) == (old(has(store.unsortedCache, k)) && !(!bytes_lt(bytes(k), start) && (end == nil || bytes_lt(bytes(k), end))))
 //@   ensures [cache] forall k string :: has(store.cache, k) == old(has(store.cache, k)) && store.cache[k] == old(store.cache[k])
+
+// ---------------------------------------------------------------- memIterator: a cursor over a slice of items
+// ascending: the window items[0:] shrinks from the front; descending: from the back.
+
+//@ func (mi *memIterator) Valid() (r bool)
+//@   props C15
+//@   ensures r == (len(mi.items) > 0)
+
+//@ func (mi *memIterator) Next()
+//@   props C15
+//@   requires len(mi.items) > 0
+//@   modifies mi.items
+//@   ensures len(mi.items) == old(len(mi.items)) - 1 && ref(mi.items) == old(ref(mi.items))
+//@   ensures mi.ascending ==> off(mi.items) == old(off(mi.items)) + 1
+//@   ensures !mi.ascending ==> off(mi.items) == old(off(mi.items))
+
+//@ func (mi *memIterator) Key() (r []byte)
+//@   props C15
+//@   requires len(mi.items) > 0
+//@   ensures mi.ascending ==> r == mi.items[0].Key
+//@   ensures !mi.ascending ==> r == mi.items[len(mi.items) - 1].Key
+
+//@ func (mi *memIterator) Value() (r []byte)
+//@   props C15
+//@   requires len(mi.items) > 0
+//@   ensures mi.ascending ==> r == mi.items[0].Value
+//@   ensures !mi.ascending ==> r == mi.items[len(mi.items) - 1].Value
+
+// ---------------------------------------------------------------- cacheMergeIterator
+// The merged iterators are sequences with cursors (its.*, /verif/spec/extern/cachekv_parent.go.txt); P = iter.parent,
+// C = iter.cache. cmpdir is iter.compare: bytes.Compare, negated when descending. The current item of the
+// merge EXISTS when
+//     exists(p, c) := (p < lenP && (c == lenC || cmpdir(keyP[p], keyC[c]) < 0))
+//                  || (c < lenC && valC[c] != nil && (p == lenP || cmpdir(keyP[p], keyC[c]) >= 0))
+// skipUntilExistsOrInvalid moves the cursors forward over cache deletes (and the parent items they shadow)
+// until the current item exists or both are exhausted; Key/Value/Next then act on the smaller key, the cache
+// winning ties.
+
+//@ ghost its.len (Array Iface Int)
+//@ ghost its.pos (Array Iface Int)
+//@ ghost its.key (Array Iface (Array Int Bytes))
+//@ ghost its.val (Array Iface (Array Int Bytes))
+
+// both sequences are strictly sorted in the direction of iteration (ASSUMED of the parent iterator; the
+// memIterator walks the sorted list of dirty items)
+//@ invariant mwf: iter.parent != iter.cache && 0 <= its.pos[iter.parent] && its.pos[iter.parent] <= its.len[iter.parent] && 0 <= its.pos[iter.cache] && its.pos[iter.cache] <= its.len[iter.cache] && (forall a int, b int :: 0 <= a && a < b && b < its.len[iter.parent] ==> cmpdir(iter.ascending, its.key[iter.parent][a], its.key[iter.parent][b]) < 0) && (forall a int, b int :: 0 <= a && a < b && b < its.len[iter.cache] ==> cmpdir(iter.ascending, its.key[iter.cache][a], its.key[iter.cache][b]) < 0)
+
+//@ func (iter *cacheMergeIterator) compare(a, b []byte) (r int)
+//@   props C15
+//@   ensures r == cmpdir(iter.ascending, a, b)
+
+//@ func (iter *cacheMergeIterator) skipCacheDeletes(until []byte)
+//@   props C15
+//@   uses mwf
+//@   modifies its.pos
+//@   loop 1 decreases its.len[iter.cache] - its.pos[iter.cache]
+//@   loop 1 invariant old(its.pos[iter.cache]) <= its.pos[iter.cache] && its.pos[iter.cache] <= its.len[iter.cache] && its.pos == upd(old(its.pos), iter.cache, its.pos[iter.cache])
+//@   loop 1 invariant forall i int :: old(its.pos[iter.cache]) <= i && i < its.pos[iter.cache] ==> its.val[iter.cache][i] == nil && (until == nil || cmpdir(iter.ascending, its.key[iter.cache][i], until) < 0)
+//@   ensures [forward] old(its.pos[iter.cache]) <= its.pos[iter.cache] && its.pos[iter.cache] <= its.len[iter.cache] && its.pos == upd(old(its.pos), iter.cache, its.pos[iter.cache])
+//@   ensures [onlydeletes] forall i int :: old(its.pos[iter.cache]) <= i && i < its.pos[iter.cache] ==> its.val[iter.cache][i] == nil && (until == nil || cmpdir(iter.ascending, its.key[iter.cache][i], until) < 0)
+//@   ensures [stops] its.pos[iter.cache] == its.len[iter.cache] || its.val[iter.cache][its.pos[iter.cache]] != nil || (until != nil && cmpdir(iter.ascending, its.key[iter.cache][its.pos[iter.cache]], until) >= 0)
+
+//@ func (iter *cacheMergeIterator) skipUntilExistsOrInvalid() (r bool)
+//@   props C15
+//@   uses mwf
+//@   modifies its.pos
+//@   loop 1 decreases (its.len[iter.parent] - its.pos[iter.parent]) + (its.len[iter.cache] - its.pos[iter.cache])
+//@   loop 1 invariant old(its.pos[iter.parent]) <= its.pos[iter.parent] && its.pos[iter.parent] <= its.len[iter.parent] && old(its.pos[iter.cache]) <= its.pos[iter.cache] && its.pos[iter.cache] <= its.len[iter.cache]
+//@   loop 1 invariant its.pos == upd(upd(old(its.pos), iter.parent, its.pos[iter.parent]), iter.cache, its.pos[iter.cache])
+//@   loop 1 invariant forall i int :: old(its.pos[iter.cache]) <= i && i < its.pos[iter.cache] ==> its.val[iter.cache][i] == nil
+//@   loop 1 invariant forall j int :: old(its.pos[iter.parent]) <= j && j < its.pos[iter.parent] ==> (exists i int :: old(its.pos[iter.cache]) <= i && i < its.pos[iter.cache] && bytes_cmp(its.key[iter.parent][j], its.key[iter.cache][i]) == 0)
+//@   loop 1 invariant forall i int :: old(its.pos[iter.cache]) <= i && i < its.pos[iter.cache] && its.pos[iter.parent] < its.len[iter.parent] ==> cmpdir(iter.ascending, its.key[iter.cache][i], its.key[iter.parent][its.pos[iter.parent]]) < 0
+//@   loop 1 invariant old(mexists(iter.ascending, its.pos[iter.parent], its.len[iter.parent], its.pos[iter.cache], its.len[iter.cache], its.key[iter.parent], its.key[iter.cache], its.val[iter.cache])) ==> its.pos == old(its.pos)
+//@   ensures [forward] old(its.pos[iter.parent]) <= its.pos[iter.parent] && its.pos[iter.parent] <= its.len[iter.parent] && old(its.pos[iter.cache]) <= its.pos[iter.cache] && its.pos[iter.cache] <= its.len[iter.cache]
+//@   ensures [frame] its.pos == upd(upd(old(its.pos), iter.parent, its.pos[iter.parent]), iter.cache, its.pos[iter.cache])
+//@   ensures [onlydeletes] forall i int :: old(its.pos[iter.cache]) <= i && i < its.pos[iter.cache] ==> its.val[iter.cache][i] == nil
+//@   ensures [shadowed] forall j int :: old(its.pos[iter.parent]) <= j && j < its.pos[iter.parent] ==> (exists i int :: old(its.pos[iter.cache]) <= i && i < its.pos[iter.cache] && bytes_cmp(its.key[iter.parent][j], its.key[iter.cache][i]) == 0)
+//@   ensures [below] forall i int :: old(its.pos[iter.cache]) <= i && i < its.pos[iter.cache] && its.pos[iter.parent] < its.len[iter.parent] ==> cmpdir(iter.ascending, its.key[iter.cache][i], its.key[iter.parent][its.pos[iter.parent]]) < 0
+//@   ensures [exists] r == mexists(iter.ascending, its.pos[iter.parent], its.len[iter.parent], its.pos[iter.cache], its.len[iter.cache], its.key[iter.parent], its.key[iter.cache], its.val[iter.cache])
+//@   ensures [exhausted] !r ==> its.pos[iter.parent] == its.len[iter.parent] && its.pos[iter.cache] == its.len[iter.cache]
+//@   ensures [idempotent] old(mexists(iter.ascending, its.pos[iter.parent], its.len[iter.parent], its.pos[iter.cache], its.len[iter.cache], its.key[iter.parent], its.key[iter.cache], its.val[iter.cache])) ==> its.pos == old(its.pos)
+
+// Valid: the cursors are moved to the next existing item (if any); the answer is whether one exists.
+//@ func (iter *cacheMergeIterator) Valid() (r bool)
+//@   props C15
+//@   same_as *store/cachekv.cacheMergeIterator.skipUntilExistsOrInvalid
+
+// Key: the smaller of the two current keys (in the direction of iteration), after skipping deleted items.
+//@ func (iter *cacheMergeIterator) Key() (r []byte)
+//@   props C15
+//@   uses mwf
+//@   modifies its.pos
+//@   ensures [forward] old(its.pos[iter.parent]) <= its.pos[iter.parent] && old(its.pos[iter.cache]) <= its.pos[iter.cache] && its.pos == upd(upd(old(its.pos), iter.parent, its.pos[iter.parent]), iter.cache, its.pos[iter.cache])
+//@   ensures [onlydeletes] forall i int :: old(its.pos[iter.cache]) <= i && i < its.pos[iter.cache] ==> its.val[iter.cache][i] == nil
+//@   ensures [current] mexists(iter.ascending, its.pos[iter.parent], its.len[iter.parent], its.pos[iter.cache], its.len[iter.cache], its.key[iter.parent], its.key[iter.cache], its.val[iter.cache])
+//@   ensures [key] r == ite(mcache(iter.ascending, its.pos[iter.parent], its.len[iter.parent], its.pos[iter.cache], its.len[iter.cache], its.key[iter.parent], its.key[iter.cache]) && !(its.pos[iter.parent] < its.len[iter.parent] && bytes_cmp(its.key[iter.parent][its.pos[iter.parent]], its.key[iter.cache][its.pos[iter.cache]]) == 0), its.key[iter.cache][its.pos[iter.cache]], its.key[iter.parent][its.pos[iter.parent]])
+//@   ensures [idempotent] old(mexists(iter.ascending, its.pos[iter.parent], its.len[iter.parent], its.pos[iter.cache], its.len[iter.cache], its.key[iter.parent], its.key[iter.cache], its.val[iter.cache])) ==> its.pos == old(its.pos)
+
+// Value: the cache's value when the cache's key is not larger (ties go to the cache), else the parent's.
+//@ func (iter *cacheMergeIterator) Value() (r []byte)
+//@   props C15
+//@   uses mwf
+//@   modifies its.pos
+//@   ensures [forward] old(its.pos[iter.parent]) <= its.pos[iter.parent] && old(its.pos[iter.cache]) <= its.pos[iter.cache] && its.pos == upd(upd(old(its.pos), iter.parent, its.pos[iter.parent]), iter.cache, its.pos[iter.cache])
+//@   ensures [onlydeletes] forall i int :: old(its.pos[iter.cache]) <= i && i < its.pos[iter.cache] ==> its.val[iter.cache][i] == nil
+//@   ensures [current] mexists(iter.ascending, its.pos[iter.parent], its.len[iter.parent], its.pos[iter.cache], its.len[iter.cache], its.key[iter.parent], its.key[iter.cache], its.val[iter.cache])
+//@   ensures [value] r == ite(mcache(iter.ascending, its.pos[iter.parent], its.len[iter.parent], its.pos[iter.cache], its.len[iter.cache], its.key[iter.parent], its.key[iter.cache]), its.val[iter.cache][its.pos[iter.cache]], its.val[iter.parent][its.pos[iter.parent]])
+//@   ensures [notdeleted] mcache(iter.ascending, its.pos[iter.parent], its.len[iter.parent], its.pos[iter.cache], its.len[iter.cache], its.key[iter.parent], its.key[iter.cache]) ==> r != nil
+//@   ensures [idempotent] old(mexists(iter.ascending, its.pos[iter.parent], its.len[iter.parent], its.pos[iter.cache], its.len[iter.cache], its.key[iter.parent], its.key[iter.cache], its.val[iter.cache])) ==> its.pos == old(its.pos)
+
+// Next: from an existing current item, advance the iterator(s) that hold the current key: the parent when its
+// key is not larger, the cache when its key is not larger (both on a tie).
+//@ func (iter *cacheMergeIterator) Next()
+//@   props C15
+//@   uses mwf
+//@   requires mexists(iter.ascending, its.pos[iter.parent], its.len[iter.parent], its.pos[iter.cache], its.len[iter.cache], its.key[iter.parent], its.key[iter.cache], its.val[iter.cache])
+//@   modifies its.pos
+//@   ensures [parent] its.pos[iter.parent] == old(its.pos[iter.parent]) + ite(old(its.pos[iter.parent] < its.len[iter.parent] && (its.pos[iter.cache] == its.len[iter.cache] || cmpdir(iter.ascending, its.key[iter.parent][its.pos[iter.parent]], its.key[iter.cache][its.pos[iter.cache]]) <= 0)), 1, 0)
+//@   ensures [cache] its.pos[iter.cache] == old(its.pos[iter.cache]) + ite(old(mcache(iter.ascending, its.pos[iter.parent], its.len[iter.parent], its.pos[iter.cache], its.len[iter.cache], its.key[iter.parent], its.key[iter.cache])), 1, 0)
+//@   ensures [frame] its.pos == upd(upd(old(its.pos), iter.parent, its.pos[iter.parent]), iter.cache, its.pos[iter.cache])
+
+// ---------------------------------------------------------------- construction and iteration entry points
+
+//@ ghost pkv.itdir (Array Iface Int)
+//@ ghost pkv.itlo (Array Iface Bytes)
+//@ ghost pkv.ithi (Array Iface Bytes)
+//@ ghost pkv.itsrc (Array Iface Iface)
+
+// C15: a new wrapper is empty (its view is the parent's), unlocked, and wraps exactly the given parent.
+//@ func NewStore(parent types.KVStore) (store *Store)
+//@   props C15
+//@   unguarded
+//@   ensures fresh(store) && store.parent == parent && store.mtx == 0 && store.cache != nil && store.unsortedCache != nil
+//@   ensures forall k string :: !has(store.cache, k) && !has(store.unsortedCache, k)
+
+//@ func newMemIterator(start, end []byte, items *list.List, ascending bool) (mi *memIterator)
+//@   props C15
+//@   loop 1 invariant fresh(itemsInDomain)
+//@   ensures fresh(mi) && mi.start == start && mi.end == end && mi.ascending == ascending
+
+//@ func newCacheMergeIterator(parent, cache types.Iterator, ascending bool) (iter *cacheMergeIterator)
+//@   props C15
+//@   ensures fresh(iter) && iter.parent == parent && iter.cache == cache && iter.ascending == ascending
+
+// C15: an iterator over [start, end) merges the parent's iterator over the same bounds and direction with the
+// dirty items of the same domain; creating it changes no key's view, and the lock is released.
+//@ func (store *Store) iterator(start, end []byte, ascending bool) (r types.Iterator)
+//@   props C15
+//@   requires store.mtx == 0
+//@   uses cwf
+//@   modifies elems(store.unsortedCache), store.mtx, pkv.itdir, pkv.itlo, pkv.ithi, pkv.itsrc
+//@   ensures [merge] dyntype(r) == typeid("*store/cachekv.cacheMergeIterator") && unbox(r, "*store/cachekv.cacheMergeIterator").ascending == ascending
+//@   ensures [parent] pkv.itsrc[unbox(r, "*store/cachekv.cacheMergeIterator").parent] == store.parent && pkv.itdir[unbox(r, "*store/cachekv.cacheMergeIterator").parent] == ite(ascending, 1, 2) && pkv.itlo[unbox(r, "*store/cachekv.cacheMergeIterator").parent] == start && pkv.ithi[unbox(r, "*store/cachekv.cacheMergeIterator").parent] == end
+//@   ensures [cache] dyntype(unbox(r, "*store/cachekv.cacheMergeIterator").cache) == typeid("*store/cachekv.memIterator") && unbox(unbox(r, "*store/cachekv.cacheMergeIterator").cache, "*store/cachekv.memIterator").ascending == ascending && unbox(unbox(r, "*store/cachekv.cacheMergeIterator").cache, "*store/cachekv.memIterator").start == start && unbox(unbox(r, "*store/cachekv.cacheMergeIterator").cache, "*store/cachekv.memIterator").end == end
+//@   ensures [sorted] forall k string :: has(store.unsortedCache, k) == (old(has(store.unsortedCache, k)) && !(!bytes_lt(bytes(k), start) && (end == nil || bytes_lt(bytes(k), end))))
+//@   ensures [stable] forall k string :: has(store.cache, k) == old(has(store.cache, k)) && store.cache[k] == old(store.cache[k])
+//@   ensures [pkv] pkv.m == old(pkv.m)
+//@   ensures [unlocked] store.mtx == 0
+
+
+//@ func (store *Store) Iterator(start, end []byte) (r types.Iterator)
+//@   props C15
+//@   requires store.mtx == 0
+//@   uses cwf
+//@   modifies elems(store.unsortedCache), store.mtx, pkv.itdir, pkv.itlo, pkv.ithi, pkv.itsrc
+//@   ensures [merge] dyntype(r) == typeid("*store/cachekv.cacheMergeIterator") && unbox(r, "*store/cachekv.cacheMergeIterator").ascending == true
+//@   ensures [parent] pkv.itsrc[unbox(r, "*store/cachekv.cacheMergeIterator").parent] == store.parent && pkv.itdir[unbox(r, "*store/cachekv.cacheMergeIterator").parent] == ite(true, 1, 2) && pkv.itlo[unbox(r, "*store/cachekv.cacheMergeIterator").parent] == start && pkv.ithi[unbox(r, "*store/cachekv.cacheMergeIterator").parent] == end
+//@   ensures [cache] dyntype(unbox(r, "*store/cachekv.cacheMergeIterator").cache) == typeid("*store/cachekv.memIterator") && unbox(unbox(r, "*store/cachekv.cacheMergeIterator").cache, "*store/cachekv.memIterator").ascending == true && unbox(unbox(r, "*store/cachekv.cacheMergeIterator").cache, "*store/cachekv.memIterator").start == start && unbox(unbox(r, "*store/cachekv.cacheMergeIterator").cache, "*store/cachekv.memIterator").end == end
+//@   ensures [sorted] forall k string :: has(store.unsortedCache, k) == (old(has(store.unsortedCache, k)) && !(!bytes_lt(bytes(k), start) && (end == nil || bytes_lt(bytes(k), end))))
+//@   ensures [stable] forall k string :: has(store.cache, k) == old(has(store.cache, k)) && store.cache[k] == old(store.cache[k])
+//@   ensures [pkv] pkv.m == old(pkv.m)
+//@   ensures [unlocked] store.mtx == 0
+
+
+//@ func (store *Store) ReverseIterator(start, end []byte) (r types.Iterator)
+//@   props C15
+//@   requires store.mtx == 0
+//@   uses cwf
+//@   modifies elems(store.unsortedCache), store.mtx, pkv.itdir, pkv.itlo, pkv.ithi, pkv.itsrc
+//@   ensures [merge] dyntype(r) == typeid("*store/cachekv.cacheMergeIterator") && unbox(r, "*store/cachekv.cacheMergeIterator").ascending == false
+//@   ensures [parent] pkv.itsrc[unbox(r, "*store/cachekv.cacheMergeIterator").parent] == store.parent && pkv.itdir[unbox(r, "*store/cachekv.cacheMergeIterator").parent] == ite(false, 1, 2) && pkv.itlo[unbox(r, "*store/cachekv.cacheMergeIterator").parent] == start && pkv.ithi[unbox(r, "*store/cachekv.cacheMergeIterator").parent] == end
+//@   ensures [cache] dyntype(unbox(r, "*store/cachekv.cacheMergeIterator").cache) == typeid("*store/cachekv.memIterator") && unbox(unbox(r, "*store/cachekv.cacheMergeIterator").cache, "*store/cachekv.memIterator").ascending == false && unbox(unbox(r, "*store/cachekv.cacheMergeIterator").cache, "*store/cachekv.memIterator").start == start && unbox(unbox(r, "*store/cachekv.cacheMergeIterator").cache, "*store/cachekv.memIterator").end == end
+//@   ensures [sorted] forall k string :: has(store.unsortedCache, k) == (old(has(store.unsortedCache, k)) && !(!bytes_lt(bytes(k), start) && (end == nil || bytes_lt(bytes(k), end))))
+//@   ensures [stable] forall k string :: has(store.cache, k) == old(has(store.cache, k)) && store.cache[k] == old(store.cache[k])
+//@   ensures [pkv] pkv.m == old(pkv.m)
+//@   ensures [unlocked] store.mtx == 0
+
